@@ -10,25 +10,34 @@ variable {α : Type}
 /-! ### §15.1 — what SPARQL fixes about the order of two sort-key values -/
 
 /-- the part of the order that SPARQL fixes: no value < blank node < IRI < literal; IRIs by code points;
-    numerics by value; plain strings by code points; false < true.  Everything else is left open (`false`). -/
+    numerics by value; plain strings by code points; false < true; two xsd:dateTime values that both have or both
+    lack a timezone chronologically (op:dateTime-less-than; with and without timezone is indeterminate).
+    Everything else (xsd:date among others: no `<` in the SPARQL operator table) is left open (`false`). -/
 def sparqlLt : Val → Val → Bool
   | none, some _ => true
   | some (.bnode _), some (.iri _) => true
   | some (.bnode _), some (.num ..) => true
   | some (.bnode _), some (.bool _) => true
   | some (.bnode _), some (.str ..) => true
+  | some (.bnode _), some (.dateTime _) => true
+  | some (.bnode _), some (.date _) => true
   | some (.iri _), some (.num ..) => true
   | some (.iri _), some (.bool _) => true
   | some (.iri _), some (.str ..) => true
+  | some (.iri _), some (.dateTime _) => true
+  | some (.iri _), some (.date _) => true
   | some (.iri a), some (.iri b) => strLt a b
   | some (.num _ v1 _), some (.num _ v2 _) => decide (v1 < v2)
   | some (.str l1 []), some (.str l2 []) => strLt l1 l2
   | some (.bool false), some (.bool true) => true
+  | some (.dateTime f1), some (.dateTime f2) => f1.aware == f2.aware && decide (f1.key < f2.key)
   | _, _ => false
 
-/-- two key values between which SPARQL sees no difference: the same term, or numerically equal -/
+/-- two key values between which SPARQL sees no difference: the same term, numerically equal, or the same
+    instant written with two UTC offsets -/
 def sparqlSame : Val → Val → Bool
   | some (.num _ v1 _), some (.num _ v2 _) => v1 == v2
+  | some (.dateTime f1), some (.dateTime f2) => f1 == f2 || (f1.aware && f2.aware && f1.key == f2.key)
   | a, b => a == b
 
 /-- the comparator one ORDER BY pass sorts by: `lt` ascending, its converse with `reverse=True` -/
@@ -51,10 +60,16 @@ def sparqlPrecedes : List (Expr × Bool) → Row → Row → Bool
     (if k.2 then sparqlLt (evalE k.1 b) (evalE k.1 a) else sparqlLt (evalE k.1 a) (evalE k.1 b)) ||
     (sparqlSame (evalE k.1 a) (evalE k.1 b) && sparqlPrecedes ks a b)
 
-/-- key values on which rdflib's comparison is a strict weak order: numeric datatypes whose URI sorts
-    between xsd:boolean and xsd:string (all but xsd:unsigned*), see known finding C08-K1 -/
-def okKey : Val → Bool
-  | some (.num d _ _) => decide (DT.boolean.uriRank < d.uriRank) && decide (d.uriRank < DT.string.uriRank)
+/-- key values on which rdflib's comparison is a strict weak order (known finding C08-K1): all numeric
+    datatypes must lie on one side of every other datatype in the order of the datatype URIs.
+    `wd = false`: no xsd:date / xsd:dateTime keys, numeric datatype URIs between xsd:boolean and xsd:string (all but
+    xsd:unsigned*); `wd = true`: date / dateTime keys admitted, numeric datatype URIs between xsd:dateTime and
+    xsd:string (all but xsd:byte and xsd:unsigned*: `byte < date < decimal` by URI, but `decimal 1 < byte 5` by value) -/
+def okKey (wd : Bool) : Val → Bool
+  | some (.num d _ _) =>
+    decide ((if wd then DT.dateTime.uriRank else DT.boolean.uriRank) < d.uriRank) && decide (d.uriRank < DT.string.uriRank)
+  | some (.dateTime _) => wd
+  | some (.date _) => wd
   | _ => true
 
 /-! ### §18.5 Distinct: first occurrences -/
